@@ -110,7 +110,9 @@ def holds(name, bound, v):
             s = str(v)
         except Exception:
             return None
-        return re.match(r"(?:%s)\Z" % bound, s) is not None
+        m = re.match(r"\(\?[aiLmsux]+\)", bound)   # leading global flags stay in front
+        flags, body = (m.group(0), bound[m.end():]) if m else ("", bound)
+        return re.match(r"%s(?:%s)\Z" % (flags, body), s) is not None
     if name == "const":
         try:
             eq = bool(v == bound)
